@@ -20,7 +20,7 @@ Definition USTAR_size_size : nat := 11.
 Definition USTAR_size_max_size : nat := 12.
 Definition USTAR_mtime_offset : nat := 136.
 Definition USTAR_mtime_size : nat := 11.
-Definition USTAR_mtime_max_size : nat := 11.
+Definition USTAR_mtime_max_size : nat := 12.
 Definition USTAR_checksum_offset : nat := 148.
 Definition USTAR_checksum_size : nat := 8.
 Definition USTAR_typeflag_offset : nat := 156.
@@ -86,7 +86,7 @@ Definition GNUTAR_size_size : nat := 11.
 Definition GNUTAR_size_max_size : nat := 12.
 Definition GNUTAR_mtime_offset : nat := 136.
 Definition GNUTAR_mtime_size : nat := 11.
-Definition GNUTAR_mtime_max_size : nat := 11.
+Definition GNUTAR_mtime_max_size : nat := 12.
 Definition GNUTAR_checksum_offset : nat := 148.
 Definition GNUTAR_checksum_size : nat := 8.
 Definition GNUTAR_typeflag_offset : nat := 156.
